@@ -85,6 +85,12 @@ pub enum Call {
     TickViaWeak,
     EnableTickViaWeak(u8),
     DisableTickViaWeak,
+    /// mp.insert_before / insert_after with bars that are members already: the shared bar as its own anchor
+    /// (0), the shared bar before/after the second member (1), the second member before/after the shared bar
+    /// (2) - documented to have no effect; `.1` = insert_after
+    MpInsertMember(u8, bool),
+    /// a call on the second member of the MultiProgress
+    TickSecond,
 }
 
 #[derive(Debug, Clone, Serialize, Deserialize)]
@@ -103,7 +109,7 @@ fn interval(k: u8) -> Duration {
     [Duration::from_millis(1), Duration::from_secs(1), Duration::from_secs(3600), Duration::from_secs(10 * 86400)][k as usize % 4]
 }
 
-fn exec(c: Call, pb: &ProgressBar, mp: &Option<MultiProgress>) {
+fn exec(c: Call, pb: &ProgressBar, mp: &Option<MultiProgress>, second: &Option<ProgressBar>) {
     match c {
         Call::Update => pb.update(|s| s.set_pos(s.pos() + 1)),
         Call::EnableTick(k) => pb.enable_steady_tick(interval(k)),
@@ -159,6 +165,22 @@ fn exec(c: Call, pb: &ProgressBar, mp: &Option<MultiProgress>) {
                 _ => again.disable_steady_tick(),
             }
         }
+        Call::MpInsertMember(which, after) => {
+            if let (Some(mp), Some(second)) = (mp, second) {
+                let (anchor, bar) = match which % 3 {
+                    0 => (pb, pb.clone()),
+                    1 => (second, pb.clone()),
+                    _ => (pb, second.clone()),
+                };
+                let back = if after { mp.insert_after(anchor, bar) } else { mp.insert_before(anchor, bar) };
+                back.tick();
+            }
+        }
+        Call::TickSecond => {
+            if let Some(second) = second {
+                second.tick();
+            }
+        }
         Call::MpInsertAfter | Call::MpInsertBefore => {
             if let Some(mp) = mp {
                 let other = ProgressBar::with_draw_target(Some(3), ProgressDrawTarget::hidden());
@@ -174,9 +196,11 @@ fn body(p: &Prog) {
     verif_sync::reset(p.timeout_budget as usize);
     let spy = Spy::default();
     let mut mp = None;
+    let mut second = None;
     let pb = if p.in_multi {
         let m = MultiProgress::with_draw_target(ProgressDrawTarget::term_like(Box::new(spy.clone())));
         let pb = m.add(ProgressBar::with_draw_target(Some(10), ProgressDrawTarget::hidden()));
+        second = Some(m.add(ProgressBar::with_draw_target(Some(5), ProgressDrawTarget::hidden())));
         mp = Some(m);
         pb
     } else {
@@ -191,14 +215,15 @@ fn body(p: &Prog) {
         let calls = calls.clone();
         let pb = pb.clone();
         let mp = mp.clone();
+        let second = second.clone();
         hs.push(shuttle::thread::spawn(move || {
             for c in calls {
-                exec(c, &pb, &mp);
+                exec(c, &pb, &mp, &second);
             }
         }));
     }
     for c in &p.main {
-        exec(*c, &pb, &mp);
+        exec(*c, &pb, &mp, &second);
     }
     for h in hs {
         h.join().expect("worker thread panicked");
@@ -211,6 +236,8 @@ fn body(p: &Prog) {
     pb.enable_steady_tick(interval(2));
     assert!(verif_sync::live_threads() <= 1, "LIFECYCLE: {} steady-tick threads alive after replacing the ticker", verif_sync::live_threads());
     // finishing: no frame is painted after finish() has returned
+    // (the second member goes first: dropping it unfinished paints its final frame)
+    drop(second);
     pb.reset();
     pb.finish();
     let frames = spy.flushes.load(Ordering::SeqCst);
@@ -438,6 +465,8 @@ fn call_strategy() -> BoxedStrategy<Call> {
         1 => Just(Call::TickViaWeak),
         1 => (0u8..4).prop_map(Call::EnableTickViaWeak),
         1 => Just(Call::DisableTickViaWeak),
+        2 => (0u8..3, any::<bool>()).prop_map(|(w, a)| Call::MpInsertMember(w, a)),
+        1 => Just(Call::TickSecond),
     ]
     .boxed()
 }
@@ -459,7 +488,7 @@ fn sched_strategy(tier: Tier) -> BoxedStrategy<SchedCase> {
             let removes = |v: &Vec<Call>| v.iter().any(|c| *c == Call::MpRemove);
             if removes(&main) || threads.iter().any(removes) {
                 for c in main.iter_mut().chain(threads.iter_mut().flatten()) {
-                    if matches!(c, Call::MpInsertAfter | Call::MpInsertBefore) {
+                    if matches!(c, Call::MpInsertAfter | Call::MpInsertBefore | Call::MpInsertMember(..)) {
                         *c = Call::MpAddOther;
                     }
                 }
@@ -485,7 +514,7 @@ pub fn property() -> Property {
         ],
         parts: vec![Box::new(Gen::<SchedCase> {
             name: "schedules",
-            rule: "proptest generates the program (1-2 worker threads of 1-5 calls plus 0-5 calls on the main thread, on clones of one ProgressBar, optionally a member of a MultiProgress, ticker initially on or off, calls from update/enable_steady_tick(1 ms..10 days)/disable_steady_tick/tick/inc/set_message/set_length/finish/finish_and_clear/println/suspend/reset/clone+drop/getters/mp.println/mp.suspend/mp.remove/mp.add/mp.clear); shuttle generates 150 (thorough 3000) random or PCT(depth 1-3) schedules per program incl. bounded time-out choices; every execution ends with the lifecycle assertions (ticker thread count 0 after disable and after the last drop, <= 1 after replace, no frame after finish() returned); non-trivial = >= 2 threads touch the handle and a ticker op, update() or an installed ticker is involved; evaluations counts programs, each explored under that many schedules",
+            rule: "proptest generates the program (1-2 worker threads of 1-5 calls plus 0-5 calls on the main thread, on clones of one ProgressBar, optionally a member of a MultiProgress, ticker initially on or off, calls from update/enable_steady_tick(1 ms..10 days)/disable_steady_tick/tick/inc/set_message/set_length/finish/finish_and_clear/println/suspend/reset/clone+drop/getters/mp.println/mp.suspend/mp.remove/mp.add/mp.clear/mp.insert_before and insert_after with a new bar or with bars that are members already, in both directions and with a bar as its own anchor); shuttle generates 150 (thorough 3000) random or PCT(depth 1-3) schedules per program incl. bounded time-out choices; every execution ends with the lifecycle assertions (ticker thread count 0 after disable and after the last drop, <= 1 after replace, no frame after finish() returned); non-trivial = >= 2 threads touch the handle and a ticker op, update() or an installed ticker is involved; evaluations counts programs, each explored under that many schedules",
             strategy: sched_strategy,
             cases: |t| t.pick(150, 3000),
             run: run_sched,
